@@ -47,8 +47,15 @@ impl PartialEq for HTLCSource { #[verifier::external_body] fn eq(&self, o: &HTLC
 #[derive(Clone, Copy)] pub struct OutPoint { pub txid: u64, pub index: u16 }
 impl vstd::std_specs::cmp::PartialEqSpecImpl for OutPoint { open spec fn obeys_eq_spec() -> bool { true } open spec fn eq_spec(&self, other: &OutPoint) -> bool { *self == *other } }
 impl PartialEq for OutPoint { #[verifier::external_body] fn eq(&self, o: &OutPoint) -> (r: bool) { unimplemented!() } }
-pub struct PendingAddHTLCInfo { pub prev_funding_outpoint: OutPoint, pub prev_htlc_id: u64 }
-pub struct HTLCPreviousHopData { pub outpoint: OutPoint, pub htlc_id: u64 }
+// field skeletons with every field of the real structs that identifies the inbound edge (a change that compares other identifying fields is verified, not rejected)
+#[derive(Clone, Copy)] pub struct NodeKey { pub id: u64 }
+impl vstd::std_specs::cmp::PartialEqSpecImpl for NodeKey { open spec fn obeys_eq_spec() -> bool { true } open spec fn eq_spec(&self, other: &NodeKey) -> bool { *self == *other } }
+impl PartialEq for NodeKey { #[verifier::external_body] fn eq(&self, o: &NodeKey) -> (r: bool) { unimplemented!() } }
+#[derive(Clone, Copy)] pub struct ChanId { pub id: u64 }
+impl vstd::std_specs::cmp::PartialEqSpecImpl for ChanId { open spec fn obeys_eq_spec() -> bool { true } open spec fn eq_spec(&self, other: &ChanId) -> bool { *self == *other } }
+impl PartialEq for ChanId { #[verifier::external_body] fn eq(&self, o: &ChanId) -> (r: bool) { unimplemented!() } }
+pub struct PendingAddHTLCInfo { pub prev_funding_outpoint: OutPoint, pub prev_htlc_id: u64, pub prev_outbound_scid_alias: u64, pub prev_counterparty_node_id: NodeKey, pub prev_channel_id: ChanId, pub prev_user_channel_id: u128 }
+pub struct HTLCPreviousHopData { pub outpoint: OutPoint, pub htlc_id: u64, pub prev_outbound_scid_alias: u64, pub user_channel_id: Option<u128>, pub counterparty_node_id: Option<NodeKey>, pub channel_id: ChanId, pub amount_msat: Option<u64>, pub cltv_expiry: Option<u32> }
 //@extract lightning/src/ln/channelmanager.rs :: fn reconcile_pending_htlcs_with_monitor
 //@slice R15
     let pending_forward_matches_htlc = |info: &PendingAddHTLCInfo| $e:seq;
